@@ -27,6 +27,8 @@ func TestMain(m *testing.M) {
 	os.Exit(rc)
 }
 
+func init() { hangCleanup = killChildren }
+
 // killChildren ends the helper processes (REST server, node) this test binary started.
 func killChildren() {
 	if srv != nil && srv.cmd != nil && srv.cmd.Process != nil {
